@@ -57,6 +57,8 @@ def main(argv=None) -> int:
 
         print(f"== {prop} tier={args.tier} root={args.root}")
         print(f"analysed: {len(repo.modules)} modules indexed; {len(ctx.analysed_funcs)} functions consulted; {len(ctx.obs)} obligations; counts: " + ", ".join(f"{k}={v}" for k, v in sorted(ctx.counters.items())))
+        if repo.renamed_units:
+            print("NOTE: analysed under baseline local names (the function differs from the baseline only by renamed locals): " + ", ".join(sorted(repo.renamed_units)))
         for n in ctx.notes:
             print(f"NOTE: {n}")
         for o in sorted(ctx.obs, key=lambda o: (o.oid, o.rel, o.lineno)):
